@@ -11,6 +11,40 @@ from .engine import Val, Unsupported, EngineError, fresh, I, B, S, R, NONE_VAL
 MAX_INLINE_DEPTH = 12
 
 
+def _pattern_ok(t):
+    """No interpreted boolean/ite structure inside (the solver rejects such terms as triggers)."""
+    todo = [t]
+    seen = set()
+    while todo:
+        x = todo.pop()
+        if x.get_id() in seen:
+            continue
+        seen.add(x.get_id())
+        if z3.is_quantifier(x) or z3.is_var(x):
+            return False
+        if z3.is_app(x):
+            k = x.decl().kind()
+            if k in (z3.Z3_OP_ITE, z3.Z3_OP_AND, z3.Z3_OP_OR, z3.Z3_OP_NOT, z3.Z3_OP_EQ, z3.Z3_OP_LE, z3.Z3_OP_LT,
+                     z3.Z3_OP_GE, z3.Z3_OP_GT, z3.Z3_OP_IMPLIES, z3.Z3_OP_DISTINCT):
+                return False
+        todo.extend(x.children())
+    return True
+
+
+def _mentions(t, vs):
+    todo = [t]
+    seen = set()
+    while todo:
+        x = todo.pop()
+        if x.get_id() in seen:
+            continue
+        seen.add(x.get_id())
+        if any(x.eq(v) for v in vs):
+            return True
+        todo.extend(x.children())
+    return False
+
+
 class CallMixin:
     def ev_Call(self, e, st):
         # spec primitives that need the un-evaluated argument
@@ -24,10 +58,14 @@ class CallMixin:
                 return self.spec_old(e, st, which="__iter_start__")
             if nm == "allocated" and st.spec:
                 v = self.eval(e.args[0], st)
+                if v.ty == NONE:
+                    return mk_bool(False)
                 return Val(BOOL, z3.And(v.t > 0, v.t < st.alloc))
             if nm == "fresh" and st.spec:
                 v = self.eval(e.args[0], st)
                 base = st.old.alloc if st.old is not None else st.alloc
+                if v.ty == NONE:
+                    return mk_bool(False)
                 return Val(BOOL, v.t >= base)
             if nm in ("all", "any") and len(e.args) == 1 and isinstance(e.args[0], (ast.GeneratorExp, ast.ListComp)):
                 return self.quantifier(nm, e.args[0], st)
@@ -368,7 +406,7 @@ class CallMixin:
         if f.startswith("map:"):
             vty = parse_type(f[4:])
             k2 = self._map_key(vty)
-            sort = z3.ArraySort(S, opt_sort(sort_of(vty)))
+            sort = z3.ArraySort(S, opt_sort(sort_of(vty)).sort)
         elif cls == "List":
             k2 = "List." + f
             sort = I if f == "len" else z3.ArraySort(I, I)
@@ -383,12 +421,29 @@ class CallMixin:
         st.assume(z3.ForAll([r], z3.Implies(r < alloc0, z3.Select(new, r) == z3.Select(arr, r)),
                             patterns=[z3.Select(new, r)]))
         st.set_field_array(k2, new)
+        self.assume_closed(st, k2, new)
         if self.write_refs is not None:
             # reclassify the whole-array write just logged: it only touches objects allocated by the callee
             for n_ in range(len(self.write_refs) - 1, -1, -1):
                 if self.write_refs[n_] == (k2, None):
                     self.write_refs[n_] = (k2, "fresh")
                     break
+
+    def assume_closed(self, st, key, arr):
+        """Closed heap (a property of the language, not of the code): a reference-typed field of an allocated
+        object holds an allocated reference (or None).  Re-stated whenever a field array is havocked."""
+        if "!" in key or "." not in key:
+            return
+        cls, f = key.rsplit(".", 1)
+        fty = self.field_type(cls, f)
+        if fty is None:
+            return
+        if not (is_reflike(fty) or (fty.name == "Opt" and is_reflike(fty.args[0]))):
+            return
+        r = fresh("r", I)
+        st.assume(z3.ForAll([r], z3.Implies(z3.And(0 < r, r < st.alloc),
+                                            z3.And(0 <= z3.Select(arr, r), z3.Select(arr, r) < st.alloc)),
+                            patterns=[z3.Select(arr, r)]))
 
     def assume_ref_range(self, v, st):
         ty = v.ty
@@ -465,6 +520,42 @@ class CallMixin:
             v = Val(v.ty, v.t, frozen=self.dict_map(v, o))
         return v
 
+    def mk_forall(self, vs, body):
+        """ForAll with explicit triggers: for each bound variable the array reads indexed exactly by it
+        (list element reads such as xs[i]); falls back to the solver's own choice when a variable has none."""
+        per_var = []
+        for v in vs:
+            found = []
+            seen = set()
+
+            def walk(t):
+                if t.get_id() in seen:
+                    return
+                seen.add(t.get_id())
+                if z3.is_select(t) and t.num_args() == 2 and t.arg(1).eq(v) and not _mentions(t.arg(0), vs) \
+                        and _pattern_ok(t.arg(0)):
+                    found.append(t)
+                if z3.is_quantifier(t):
+                    return
+                for c in t.children():
+                    walk(c)
+            walk(body)
+            uniq = []
+            for f in found:
+                if not any(f.eq(u) for u in uniq):
+                    uniq.append(f)
+            if not uniq:
+                return z3.ForAll(vs, body)
+            per_var.append(uniq[:3])
+        import itertools
+        pats = []
+        for combo in itertools.islice(itertools.product(*per_var), 6):
+            pats.append(combo[0] if len(combo) == 1 else z3.MultiPattern(*combo))
+        try:
+            return z3.ForAll(vs, body, patterns=pats)
+        except z3.Z3Exception:
+            return z3.ForAll(vs, body)
+
     def quantifier_flat(self, kind, gen, st):
         """all(P for i in range(..) for j in range(..)): one flat quantifier (better triggers than nesting)."""
         s_env = st.env
@@ -487,7 +578,7 @@ class CallMixin:
             st.ghost["__qvars__"] = qv + names
             body = self.truth(self.eval(gen.elt, st), st)
             if kind == "all":
-                return Val(BOOL, z3.ForAll(vs, z3.Implies(z3.And(*rngs), body)))
+                return Val(BOOL, self.mk_forall(vs, z3.Implies(z3.And(*rngs), body)))
             return Val(BOOL, z3.Exists(vs, z3.And(*rngs, body)))
         finally:
             st.env = s_env
@@ -536,7 +627,7 @@ class CallMixin:
                 rng = z3.And(lo.t <= i, i < hi.t)
                 body = self._qbody(gen, g, st, kind)
                 if kind == "all":
-                    return Val(BOOL, z3.ForAll([i], z3.Implies(rng, body)))
+                    return Val(BOOL, self.mk_forall([i], z3.Implies(rng, body)))
                 return Val(BOOL, z3.Exists([i], z3.And(rng, body)))
             if isinstance(it, ast.Call) and isinstance(it.func, ast.Name) and it.func.id == "instants":
                 # every instant (integer microsecond) of the closed interval [a, b]
